@@ -19,13 +19,13 @@ type solverSpec struct {
 
 var solvers = []solverSpec{
 	{"z3-new", func(f string, t time.Duration, seed int) []string {
-		return []string{"z3-new", "-smt2", fmt.Sprintf("-T:%d", int(t.Seconds())+1), fmt.Sprintf("smt.random_seed=%d", seed), fmt.Sprintf("sat.random_seed=%d", seed), "smt.array.extensional=false", f}
+		return []string{"z3-new", "-smt2", fmt.Sprintf("-T:%d", 8*(int(t.Seconds())+1)), fmt.Sprintf("smt.random_seed=%d", seed), fmt.Sprintf("sat.random_seed=%d", seed), "smt.array.extensional=false", f}
 	}},
 	{"cvc5", func(f string, t time.Duration, seed int) []string {
-		return []string{"cvc5", "--lang=smt2", fmt.Sprintf("--tlimit=%d", t.Milliseconds()), fmt.Sprintf("--seed=%d", seed), f}
+		return []string{"cvc5", "--lang=smt2", fmt.Sprintf("--tlimit=%d", 8*t.Milliseconds()), fmt.Sprintf("--seed=%d", seed), f}
 	}},
 	{"z3", func(f string, t time.Duration, seed int) []string {
-		return []string{"z3", "-smt2", fmt.Sprintf("-T:%d", int(t.Seconds())+1), fmt.Sprintf("smt.random_seed=%d", seed), "smt.array.extensional=false", f}
+		return []string{"z3", "-smt2", fmt.Sprintf("-T:%d", 8*(int(t.Seconds())+1)), fmt.Sprintf("smt.random_seed=%d", seed), "smt.array.extensional=false", f}
 	}},
 }
 
@@ -37,9 +37,13 @@ type solveResult struct {
 
 func runSolver(sp solverSpec, file string, timeout time.Duration, seed int) solveResult {
 	args := sp.args(file, timeout, seed)
-	ctx, cancel := context.WithTimeout(context.Background(), timeout+2*time.Second)
+	// The time limit is CPU time (ulimit -t), so that a verdict does not depend on how loaded the machine is; the wall
+	// clock limits (solver option and context) are only a backstop at eight times that.
+	cpu := int(timeout.Seconds()+0.999) + 1
+	ctx, cancel := context.WithTimeout(context.Background(), 8*timeout+4*time.Second)
 	defer cancel()
-	cmd := exec.CommandContext(ctx, args[0], args[1:]...)
+	sh := append([]string{"-c", fmt.Sprintf("ulimit -t %d; exec \"$@\"", cpu), "sh"}, args...)
+	cmd := exec.CommandContext(ctx, "/bin/sh", sh...)
 	var out bytes.Buffer
 	cmd.Stdout = &out
 	cmd.Stderr = &out
@@ -54,6 +58,9 @@ func runSolver(sp solverSpec, file string, timeout time.Duration, seed int) solv
 	}
 	if ctx.Err() != nil || strings.Contains(text, "timeout") || strings.Contains(text, "interrupted") {
 		return solveResult{"timeout", text, secs}
+	}
+	if ps := cmd.ProcessState; ps != nil && !ps.Exited() {
+		return solveResult{"timeout", text + "\n(CPU time limit reached)", secs} // killed by SIGXCPU/SIGKILL
 	}
 	return solveResult{"error", text, secs}
 }
